@@ -258,7 +258,7 @@ def correspond(ctx):
     dof_hosts = [nm for nm, e in sorted(reg2.items()) if 'return_dof' in e['params'] and 'num_eigens' in e['params']]
     for host in dof_hosts:
         for mode in ('exhausted', 'converged', 'first-solve'):
-            if not ctx.thorough and rng.random() < 0.4:
+            if not ctx.thorough and rng.random() < 0.1:
                 continue
             m, n = int(rng.integers(7, 12)), int(rng.integers(7, 12))
             dr, dc = int(rng.integers(1, 4)), int(rng.integers(1, 4))
